@@ -146,6 +146,11 @@ def check_case(case, ctx):
             want = model(variant, inc, start, end, mn, mx, t)
             if want is None:
                 continue
+            if prefix == '' and not t.startswith('.'):
+                # the extensible integer part is specified "for any non-digit prefix pattern" (C15): with nothing in front of it, only
+                # numerals without an integer part are judged
+                ctx.count('unspecified:bare_extensible_integer_part')
+                continue
             got = q.is_exact_match(prefix + t + suffix)
             acc += want
             rej += not want
@@ -191,6 +196,8 @@ def gen_case(draw):
     variant = draw(st.sampled_from(['Decimal', 'Decimal', 'PositiveDecimal', 'NegativeDecimal', 'UnsignedDecimal']))
     inc = draw(st.booleans()) if variant == 'Decimal' else False
     start, end = draw(bounds_strategy())
+    if draw(st.integers(0, 3)) == 0:
+        start = 0          # "no integer part at all when start is 0": a third of the cases are about that clause
     if draw(st.integers(0, 9)) == 0:
         bad = st.sampled_from(sorted(BAD)).map(lambda k: ['bad', k])
         mn = draw(st.one_of(bad, st.integers(1, 4)))
@@ -207,6 +214,8 @@ def gen_case(draw):
     cand = st.tuples(st.sampled_from(['', '', '', '+', '-']), st.one_of(num, num, st.just(''), digits),
                      st.sampled_from(['.', '.', '.', '.', '', '..', ',']), st.one_of(frac_near(0), frac_near(0), digits)).map(''.join)
     cands = draw(st.lists(cand, min_size=4, max_size=12))
+    if start == 0:         # numerals without an integer part, with fraction lengths around the bounds
+        cands = cands + ['.' + draw(frac_near(0)), '.' + draw(frac_near(0))]
     if draw(st.integers(0, 9)) == 0:
         kw = draw(st.fixed_dictionaries({}, optional={'start': st.integers(0, 10 ** 9), 'min_decimal': st.integers(1, 3),
                                                       'max_decimal': st.integers(3, 6)}))
@@ -216,7 +225,7 @@ def gen_case(draw):
         return {'mode': 'defaults', 'variant': variant, 'include_sign': False, 'kw': kw, 'candidates': draw(st.lists(c2, min_size=4, max_size=10))}
     if draw(st.integers(0, 3)) == 0:
         return {'mode': 'ext', 'variant': draw(st.sampled_from(['Decimal', 'UnsignedDecimal'])), 'include_sign': False, 'start': start,
-                'end': end, 'min': mn, 'max': mx, 'candidates': cands, 'positional': draw(st.sampled_from([0, 4, 6])), 'prefix': draw(st.sampled_from(['id', 'x=', '#', 'No ', '('])),
+                'end': end, 'min': mn, 'max': mx, 'candidates': cands, 'positional': draw(st.sampled_from([0, 4, 6])), 'prefix': draw(st.sampled_from(['id', 'x=', '#', 'No ', '(', '', '', ' ', 'a\n', '\t', '\u00e9', '_', ': '])),
                 'suffix': draw(st.sampled_from(['', '', 'rad', ' m', ')', '%']))}
     return {'mode': 'match', 'variant': variant, 'include_sign': inc, 'start': start, 'end': end, 'min': mn, 'max': mx,
             'candidates': cands, 'positional': draw(st.sampled_from([0, 2, 4, 4, 5, 6]))}
